@@ -20,7 +20,7 @@ RULE = ('modules with one contracted function g over 6 signature shapes (positio
         'defaults omitted / too many arguments); literals: ints, floats, strings, bytes, None, booleans, nested tuples / lists / sets / dicts; both parser back-ends; '
         'non-trivial = the runtime rejects at least one of the described checks')
 
-SIGS = [('a', ['a']), ('a, b', ['a', 'b']), ('a, b=2', ['a', 'b']), ('a, *, c=3', ['a', 'c']), ('a, b=1, *args', ['a', 'b']), ('a, **kw', ['a']), ('a, /, b=1', ['a', 'b']), ('a, b, /', ['a', 'b'])]
+SIGS = [('a', ['a']), ('a, b', ['a', 'b']), ('a, b=2', ['a', 'b']), ('a, *, c=3', ['a', 'c']), ('a, b=1, *args', ['a', 'b']), ('a, **kw', ['a']), ('a, /, b=1', ['a', 'b']), ('a, b, /', ['a', 'b']), ('a=0, b=1', ['a', 'b'])]
 LITS = ['0', '1', '-1', '2', '5', '-3', '0.5', '-1.0', "''", "'x'", "'abc'", "b'ab'", 'None', 'True', 'False', '()', '(1, 2)', "(1, ('a', None))", '[]', '[1, 2, 3]',
         '{1, 2}', "{'k': 1}", '[(1, 2), [3]]', '1.0']
 
@@ -80,6 +80,11 @@ def gen_case(rnd):
             if r < .2: kwargs = {'b': rnd.choice(LITS)}
         elif sig == 'a, b, /':
             args = [rnd.choice(LITS), rnd.choice(LITS)]
+        elif sig == 'a=0, b=1':
+            # every parameter has a default: the call may pass nothing at all
+            if r < .5: args = []
+            elif r < .75: args = [rnd.choice(LITS)]
+            else: kwargs = {'b': rnd.choice(LITS)}
         else:
             args = [rnd.choice(LITS)]
             if r < .5: kwargs = {'z': rnd.choice(LITS)}
